@@ -51,8 +51,7 @@ Definition timedelta_to_duration (n : Z) : text :=
           ++ (if r2 =? 0 then [] else dec r2 ++ [cS])).
 
 (* ---- common/parse_utils.duration_to_timedelta ---- *)
-Fixpoint take_line (s : text) : text :=
-  match s with c :: t => if c =? 10 then [] else c :: take_line t | [] => [] end.
+(* the element regexp is compiled with re.DOTALL: its trailing group is the whole remainder, newlines included *)
 
 (* int(rest) of the "trailing bare integer is seconds" step: None when int() raises ValueError.
    Exact for strings of digits; any character outside digits / '_' / sign / blanks makes int() fail. *)
@@ -97,7 +96,7 @@ Fixpoint dur_loop (fuel : nat) (s : text) (time_section : bool) (acc : Z) : res 
           let (digits, r) := span_digits s1 in
           match digits, r with
           | _ :: _, what :: rest0 =>
-              let rest := take_line rest0 in
+              let rest := rest0 in
               let num := int_of_digits digits in
               let step (add : Z) :=
                 let acc' := acc + add in
